@@ -23,6 +23,33 @@ func MarshalSchema(schema *ast.Schema) []byte {
 type marshaler struct {
 	w      *bytes.Buffer
 	indent int
+	// declared holds the names of the entity, enum and common types visible without qualification at the point being
+	// marshalled. A builtin type whose bare name is declared there must be written as __cedar::Name, because the bare
+	// name would be read back as a reference to the declared type.
+	declared map[string]bool
+}
+
+func declaredNames(scopes ...*ast.Namespace) map[string]bool {
+	res := map[string]bool{}
+	for _, ns := range scopes {
+		for name := range ns.Entities {
+			res[string(name)] = true
+		}
+		for name := range ns.Enums {
+			res[string(name)] = true
+		}
+		for name := range ns.CommonTypes {
+			res[string(name)] = true
+		}
+	}
+	return res
+}
+
+func (m *marshaler) marshalBuiltin(name string) {
+	if m.declared[name] {
+		m.w.WriteString("__cedar::")
+	}
+	m.w.WriteString(name)
 }
 
 func (m *marshaler) writeIndent() {
@@ -35,6 +62,8 @@ func (m *marshaler) marshalSchema(schema *ast.Schema) {
 	first := true
 
 	// Marshal bare declarations
+	global := &ast.Namespace{Entities: schema.Entities, Enums: schema.Enums, CommonTypes: schema.CommonTypes}
+	m.declared = declaredNames(global)
 	m.marshalDecls(&first, schema.Entities, schema.Enums, schema.Actions, schema.CommonTypes)
 
 	// Marshal namespaces in sorted order
@@ -50,6 +79,7 @@ func (m *marshaler) marshalSchema(schema *ast.Schema) {
 		fmt.Fprintf(m.w, "namespace %s {\n", name)
 		m.indent++
 		innerFirst := true
+		m.declared = declaredNames(global, &ns)
 		m.marshalDecls(&innerFirst, ns.Entities, ns.Enums, ns.Actions, ns.CommonTypes)
 		m.indent--
 		m.writeIndent()
@@ -158,13 +188,13 @@ func (m *marshaler) marshalAnnotations(annotations ast.Annotations) {
 func (m *marshaler) marshalType(t ast.IsType) {
 	switch t := t.(type) {
 	case ast.StringType:
-		m.w.WriteString("String")
+		m.marshalBuiltin("String")
 	case ast.LongType:
-		m.w.WriteString("Long")
+		m.marshalBuiltin("Long")
 	case ast.BoolType:
-		m.w.WriteString("Bool")
+		m.marshalBuiltin("Bool")
 	case ast.ExtensionType:
-		m.w.WriteString(string(t))
+		m.marshalBuiltin(string(t))
 	case ast.SetType:
 		m.w.WriteString("Set<")
 		m.marshalType(t.Element)
